@@ -101,7 +101,7 @@ func H12_expgolomb() {
 // one symbol (symbolic) or two symbols {s, 255}.
 func H12_alphabet() {
 	pre := uint(vhCase("prefixBits", 0, 3))
-	kind := vhCase("kind", 0, 3)
+	kind := vhCase("kind", 0, vhParam("maxKind", 1)) // kinds 2,3 (symbolic symbols) make the decoder scan fork on all 256 presence bits: not registered
 	sentinel := vhU64("sentinel")
 	var alpha []int
 	switch kind {
